@@ -34,6 +34,11 @@ def conforms(y, t, built):
         return isinstance(y, pathlib.PurePath)
     if k == 'enum':
         return isinstance(y, built.get(t['name']))
+    if k == 'sub':
+        # a user-defined subclass of a stdlib leaf type: exactly that class (a plain base instance does not conform)
+        return type(y) is built.get(t['name'])
+    if k == 'annpat':
+        return conforms(y, a[0], built)
     if k == 'literal':
         return any(type(y) is type(v) and y == v for v in t['vs'])
     if k == 'optional':
@@ -241,6 +246,11 @@ def run(ctx: C.Ctx):
         outs = ctx.driver.run(reqs)
         for (case, out, built), o_ in zip(pend, outs):
             compare_load(ctx, 'junk', case, out, o_, built)
+    # further streams (Enum families, extended grammar, patterned positions, v1 engine): own index ranges and generators
+    import sys
+    from harness.props import c05_ext
+    c05_ext.run(ctx, sys.modules[__name__])
+    ctx.rule += ' || ' + c05_ext.RULE
 
 
 ELEM_POOL = [('int', 7), ('str', 'a'), ('any', [1]), ('float', 2.5), ('bool', True), ('opt', None), ('optstr', 'q')]
